@@ -109,13 +109,31 @@ structure LRxn where
   stoich : List (LName × Int)
 deriving Inhabited
 
-/-- `(dict(zip(bs, ns)) | dict(zip(bp, np))).get(k, k)`: in each `dict(zip(..))` the last
-    binding of a key wins, and the products' dict overrides the substrates' -/
-def replacement (bs : List Name) (ns : List LName) (bp : List Name) (np : List LName) (k : Name) :
-    LName :=
-  match ((bp.zip np).reverse ++ (bs.zip ns).reverse).lookup k with
+/-- `substrate_names[k]` (a `defaultdict(list)` filled from `zip(base_substrates, new_substrates,
+    strict=True)`; both lists have the same length): the new names of the occurrences of `k` among
+    the substrates, in order -/
+def occurrencesOf : List Name → List LName → Name → List LName
+  | s :: ss, n :: ns, k => if s = k then n :: occurrencesOf ss ns k else occurrencesOf ss ns k
+  | _, _, _ => []
+
+/-- `dict(zip(base_products, new_products, strict=True)).get(k, k)`: the last binding of a key wins -/
+def productName (bp : List Name) (np : List LName) (k : Name) : LName :=
+  match (bp.zip np).reverse.lookup k with
   | some n => n
   | none => plain k
+
+/-- the `for k in args` loop (after repo commit "fix: isotopomer reactions of a compound that takes
+    part more than once ..."): the j-th mention of a substrate compound reads its j-th occurrence,
+    `occurrences[min(mentions[k], len(occurrences) - 1)]`; a name that is no substrate reads the
+    products' dict.  `seen` lists the arguments already handled, so `mentions[k] = seen.count k`. -/
+def replaceArgs (bs : List Name) (ns : List LName) (bp : List Name) (np : List LName) :
+    List Name → List Name → List LName
+  | _, [] => []
+  | seen, k :: rest =>
+    (match occurrencesOf bs ns k with
+     | [] => productName bp np k
+     | o :: os => (o :: os).getD (min (seen.count k) os.length) o)
+      :: replaceArgs bs ns bp np (k :: seen) rest
 
 /-- body of the `for rate_suffix in ...` loop of `_create_isotopomer_reactions` -/
 def isoReaction (r : BRxn) (labelmap : List Nat) (bs bp : List Name) (ls lp : List Nat)
@@ -128,7 +146,7 @@ def isoReaction (r : BRxn) (labelmap : List Nat) (bs bp : List Name) (ls lp : Li
   let newProducts := assignLabels bp productLabels
   pure { name := ⟨r.name, some suffix⟩
          fn := r.fn
-         args := r.args.map (replacement bs newSubstrates bp newProducts)
+         args := replaceArgs bs newSubstrates bp newProducts [] r.args
          stoich := repack newSubstrates newProducts }
 
 /-- `_create_isotopomer_reactions`: the reactions it adds, in order -/
@@ -289,7 +307,7 @@ def totalsEnv (lv : List (Name × Nat)) (σ : LName → Rat) (a : Name) : Rat :=
     reaction does not touch labelled compounds -/
 def RxnOk (lv : List (Name × Nat)) (maps : List (Name × List Nat)) (r : BRxn) : Prop :=
   match maps.lookup r.name with
-  | some lm => nProd lv r ≤ lm.length ∧ MassAction lv r ∧ DistinctOccurrences lv r
+  | some lm => nProd lv r ≤ lm.length ∧ MassAction lv r
   | none => (∀ kv ∈ r.stoich, lv.lookup kv.1 = none) ∧ (r.stoich.map (·.1)).Nodup
 
 /-! ### numeric reading of a whole labelled model (driver side of the tie) -/
